@@ -94,6 +94,16 @@ def applyRange (range : Option TRange) (idx : List Ent) : Option (List Ent) :=
 def construct (log : List Msg) (types : Option (List Nat)) (range : Option TRange) : Option (List Ent) :=
   (applyRange range (indexOf log)).map (applyTypes types)
 
+/-- The other route to the same criteria: the reader is constructed with the message types only and the time
+range is handed to `filter_in_place()` before the first read.  The index path of `filter_in_place` slices the
+CURRENT index (`self.index = self.index[key]`), here the type-filtered one, with the `t0` the slices of the
+complete index carry along; an empty current index is returned as it is (`__getitem__`: "No data available"). -/
+def constructThenFilterTime (log : List Msg) (types : Option (List Nat)) (range : Option TRange) :
+    Option (List Ent) :=
+  match range with
+  | none => some (applyTypes types (indexOf log))
+  | some r => sliceByRange (applyTypes types (indexOf log)) (t0Of (indexOf log)) r
+
 /-- Reading everything: per index entry the source test, the two `max_bytes` cuts (which end the read)
 and `require_p1_time`. Returns ordinals. -/
 def readAll (log : List Msg) (sources : Option (List Nat)) (maxBytes : Option Nat) (requireP1 : Bool) :
